@@ -6,7 +6,7 @@ use std::sync::atomic::{AtomicUsize, Ordering};
 use std::sync::Arc;
 
 /// (routed path, preference, status, size, header name, header value, stream) — same table as lean/KvarnModel/Drv/C03.lean
-const TABLE: [(&str, &str, u16, usize, &str, &str, bool); 13] = [
+const TABLE: [(&str, &str, u16, usize, &str, &str, bool); 14] = [
     ("/full", "full", 200, 60, "", "", false),
     ("/qm", "qm", 200, 60, "", "", false),
     ("/none", "none", 200, 60, "", "", false),
@@ -20,6 +20,9 @@ const TABLE: [(&str, &str, u16, usize, &str, &str, bool); 13] = [
     ("/d/index.html", "qm", 200, 60, "", "", false),
     ("/almost", "full", 200, 4194303, "", "", false),
     ("/stream", "full", 200, 60, "", "", true),
+    // the preference depends on the request: QueryMatters for `?x=1`, Full otherwise — both key variants of one
+    // path can be live at the same time
+    ("/mix", "mix", 200, 60, "", "", false),
 ];
 const QUERIES: [Option<&str>; 4] = [None, Some(""), Some("x=1"), Some("x=2")];
 
@@ -33,7 +36,7 @@ fn build_host(cache: bool, permissive: bool) -> (Arc<HostCollection>, Vec<Arc<At
         let (pref, status, size, hn, hv, stream) = (*pref, *status, *size, *hn, *hv, *stream);
         ext.add_prepare_single(
             *path,
-            prepare!(_r, _h, _p, _a, move |c: Arc<AtomicUsize>, idx: usize, pref: &'static str, status: u16, size: usize, hn: &'static str, hv: &'static str, stream: bool| {
+            prepare!(req, _h, _p, _a, move |c: Arc<AtomicUsize>, idx: usize, pref: &'static str, status: u16, size: usize, hn: &'static str, hv: &'static str, stream: bool| {
                 let n = c.fetch_add(1, Ordering::SeqCst);
                 let mut body = format!("p{idx}#{n};").into_bytes();
                 body.resize(*size, b'.');
@@ -45,6 +48,7 @@ fn build_host(cache: bool, permissive: bool) -> (Arc<HostCollection>, Vec<Arc<At
                 let f = match *pref {
                     "full" => FatResponse::cache(r),
                     "qm" => FatResponse::new(r, comprash::ServerCachePreference::QueryMatters),
+                    "mix" => if req.uri().query() == Some("x=1") { FatResponse::new(r, comprash::ServerCachePreference::QueryMatters) } else { FatResponse::cache(r) },
                     _ => FatResponse::no_cache(r),
                 };
                 if *stream { f.with_future(response_pipe_fut!(_pipe, _host, {})) } else { f }
@@ -66,20 +70,22 @@ fn build_host(cache: bool, permissive: bool) -> (Arc<HostCollection>, Vec<Arc<At
 fn gen_events(rng: &mut Rng, timed: bool) -> String {
     let n = rng.range(3, if timed { 10 } else { 40 });
     let mut t = 0usize;
-    let focus: Vec<usize> = if timed { vec![6, 7, 0] } else { (0..rng.range(1, 4)).map(|_| rng.below(TABLE.len())).collect() };
+    // one history in six concentrates on the handler with both key variants and clears often
+    let mixy = !timed && rng.chance(1, 6);
+    let focus: Vec<usize> = if timed { vec![6, 7, 0] } else if mixy { vec![13] } else { (0..rng.range(1, 4)).map(|_| rng.below(TABLE.len())).collect() };
     list((0..n).map(|_| {
         if timed && rng.chance(1, 3) {
             t += *rng.pick(&[300usize, 1600, 2600]);
         } else {
             t += 5;
         }
-        match rng.below(14) {
+        match if mixy && rng.chance(1, 5) { 0 } else { rng.below(14) } {
             0 => format!("K:{}:{}", rng.pick(&focus), rng.below(4)),
             1 if !timed => "A".to_owned(),
             2 if !timed => format!("KR:{}", rng.below(4)),
             _ => {
                 let p = if rng.chance(4, 5) { *rng.pick(&focus) } else { rng.below(TABLE.len()) };
-                let m = *rng.pick(&["G", "G", "G", "H", "P"]);
+                let m = *rng.pick(&["G", "G", "G", "G", "H", "H", "P", "O", "T"]);
                 let ims = *rng.pick(&["none", "none", "none", "new", "old"]);
                 format!("R:{t}:{m}:{p}:{}:{ims}:{}", rng.below(4), if rng.chance(1, 2) { "a" } else { "b" })
             }
@@ -89,11 +95,14 @@ fn gen_events(rng: &mut Rng, timed: bool) -> String {
 
 pub struct History;
 impl Group for History {
+    fn timing_sensitive(&self) -> bool {
+        true
+    }
     fn name(&self) -> &'static str {
         "c03.hist"
     }
     fn rule(&self) -> &'static str {
-        "histories of 3-40 events over 13 handlers (Full, QueryMatters, None, 404, filtered 403, kvarn-cache-control none / 1s, cache-control max-age=2, exactly 4 MiB and one byte less, `/`->/index.html and `/d/`->/d/index.html expansions, a streaming response) x 4 query forms (none, empty, x=1, x=2) x GET/HEAD/POST x If-Modified-Since (absent, current, 10 s old) x clear_page / clear of `/` as typed / clear_response_caches, default and permissive status filter, cache on/off; timed histories use real waits of 0.3/1.6/2.6 s against lifetimes of 1 and 2 s; every handler embeds its invocation counter, so which replies are hits, which are recomputed and which are 304 is observable and compared with the model; the same history runs against an uncached twin (oracle: same status and same representation, no counter older than its lifetime); non-trivial = at least one hit or 304"
+        "histories of 3-40 events over 14 handlers (Full, QueryMatters, a handler whose preference depends on the query so that both key variants of one path are live, None, 404, filtered 403, kvarn-cache-control none / 1s, cache-control max-age=2, exactly 4 MiB and one byte less, `/`->/index.html and `/d/`->/d/index.html expansions, a streaming response) x 4 query forms (none, empty, x=1, x=2) x GET/HEAD/POST/OPTIONS/TRACE x If-Modified-Since (absent, current, 10 s old) x clear_page / clear of `/` as typed / clear_response_caches, default and permissive status filter, cache on/off; timed histories use real waits of 0.3/1.6/2.6 s against lifetimes of 1 and 2 s; every handler embeds its invocation counter, so which replies are hits, which are recomputed and which are 304 is observable and compared with the model; the same history runs against an uncached twin (oracle: same status and same representation, no counter older than its lifetime); non-trivial = at least one hit or 304"
     }
     fn generate(&self, ctx: &Ctx, rng: &mut Rng) -> Vec<String> {
         let mut v = Vec::new();
@@ -101,6 +110,10 @@ impl Group for History {
         for _ in 0..timed {
             v.push(format!("c03.hist 1 0 {}", gen_events(rng, true)));
         }
+        // both key variants of one path, then a clear of one of them; a safe non-GET method after a GET
+        v.push("c03.hist 1 0 [R:5:G:13:2:none:a,R:10:G:13:3:none:a,K:13:2,R:15:G:13:2:none:a,R:20:G:13:3:none:a]".to_owned());
+        v.push("c03.hist 1 0 [R:5:G:13:3:none:a,R:10:G:13:2:none:a,K:13:3,R:15:G:13:3:none:a,R:20:G:13:2:none:a]".to_owned());
+        v.push("c03.hist 1 0 [R:5:G:0:0:none:a,R:10:O:0:0:none:a,R:15:T:0:0:none:a,R:20:H:0:0:none:a,R:25:G:3:0:none:a,R:30:O:3:0:none:a]".to_owned());
         let n = if ctx.mode == Mode::Quick { 1200 } else { 30_000 };
         for _ in 0..n {
             let ce = b01(!rng.chance(1, 10));
@@ -136,7 +149,7 @@ impl Group for History {
                     let typed = match (routed, f[6]) { ("/index.html", "a") => "/", ("/d/index.html", "a") => "/d/", (r, _) => r };
                     let uri = match QUERIES[f[4].parse::<usize>().unwrap()] { None => typed.to_owned(), Some(q) => format!("{typed}?{q}") };
                     let mk = || {
-                        let mut b = Request::builder().method(match f[2] { "G" => "GET", "H" => "HEAD", _ => "POST" }).uri(&uri);
+                        let mut b = Request::builder().method(match f[2] { "G" => "GET", "H" => "HEAD", "O" => "OPTIONS", "T" => "TRACE", _ => "POST" }).uri(&uri);
                         if f[5] != "none" {
                             let now = time::OffsetDateTime::now_utc() - if f[5] == "old" { time::Duration::seconds(10) } else { time::Duration::ZERO };
                             b = b.header("if-modified-since", now.format(&comprash::HTTP_DATE).unwrap());
@@ -190,9 +203,24 @@ impl Group for History {
         let permissive = p[2] == "1";
         let outs = parse_list(out)?;
         let mut seen: std::collections::HashMap<usize, Vec<String>> = Default::default();
+        // (handler, query form) -> replies produced before the last explicit clear of that page
+        let mut cleared: std::collections::HashMap<(usize, String), Vec<String>> = Default::default();
         let mut oi = 0;
         for ev in parse_list(p[3])? {
             let f: Vec<&str> = ev.split(':').collect();
+            if f[0] == "K" {
+                let pi: usize = f[1].parse().ok()?;
+                cleared.insert((pi, f[2].to_owned()), seen.get(&pi).cloned().unwrap_or_default());
+                continue;
+            }
+            if f[0] == "A" {
+                for (pi, v) in &seen {
+                    for q in 0..4 {
+                        cleared.insert((*pi, q.to_string()), v.clone());
+                    }
+                }
+                continue;
+            }
             if f[0] != "R" {
                 continue;
             }
@@ -200,12 +228,18 @@ impl Group for History {
             oi += 1;
             let pi: usize = f[3].parse().ok()?;
             let t = TABLE[pi];
-            let uncacheable = t.1 == "none" || (t.2 == 403 && !permissive) || t.5 == "none" || t.3 >= 4 * 1024 * 1024 || t.6 || f[2] == "P";
+            let uncacheable = t.1 == "none" || (t.2 == 403 && !permissive) || t.5 == "none" || t.3 >= 4 * 1024 * 1024 || t.6 || !matches!(f[2], "G" | "H");
             if o == "304" {
-                if uncacheable && f[2] != "P" && t.1 != "full" {
+                if uncacheable && matches!(f[2], "G" | "H") && t.1 != "full" && t.1 != "mix" {
                     return Some((format!("stored:{line}"), format!("304 for the uncacheable {}", t.0)));
                 }
                 continue;
+            }
+            // not at all after an explicit clear of that page
+            if let Some(before) = cleared.get(&(pi, f[4].to_owned())) {
+                if before.contains(&o) {
+                    return Some((format!("cleared:{line}"), format!("{}?{} was cleared, yet the reply {o} produced before the clear was served after it", t.0, f[4])));
+                }
             }
             let e = seen.entry(pi).or_default();
             if (uncacheable || p[1] == "0") && e.contains(&o) {
